@@ -182,6 +182,12 @@ def run(spec, ctx):
     opt = spec['opt']
     N = opt.get('j') or 1
     base_opt = {k: v for k, v in opt.items() if k != 'j'}
+    if spec['sched'].get('barrier'):
+        # (a minimised or hand-written spec may ask for more children at the barrier than the
+        # world has layers: that barrier could never open)
+        nsel = len(m.select({}))
+        spec = dict(spec, sched=dict(spec['sched'],
+                                     barrier=max(1, min(spec['sched']['barrier'], N, nsel))))
     spec0 = dict(spec, opt=base_opt, plan=[e for e in spec['plan']
                                            if e['site'] != 'channel' and not e.get('nie')])
     base = core.execute(spec0, W.argv(base_opt, src), sched_mode={'prng': 0}, label='baseline')
